@@ -14,7 +14,7 @@ INFO = {
         'None, int, float, str, tuple, list: order operators must raise ValueError, == is False, != is True. sorted(): 3 (thorough 4) symbolic '
         'ratings through the real sorted(); on every path the output is monotone in ordinal().'),
     'bounds': {
-        'quick': '5 rating classes x {<, <=, >, >=, ==, !=} over all finite doubles, on fresh objects and on objects that were used and then updated in place; ordinal(z) symbolic; 10 foreign kinds; sorted() of 3',
+        'quick': '5 rating classes x {<, <=, >, >=, ==, !=} over all finite doubles, on fresh objects, on objects that were used and then updated in place, and on two snapshots of one player (same id); ordinal(z) symbolic; 10 foreign kinds; sorted() of 3',
         'thorough': '+ sorted() of 4',
     },
     'outside': ['NaN / infinite mu or sigma', 'foreign kinds not on the menu (menu printed in the samples)'],
@@ -35,6 +35,8 @@ def jobs(tier):
             # the same obligation on rating objects that were compared / asked for their ordinal before their mu and sigma
             # were updated in place (rate() updates the objects it is given): nothing may be remembered
             out.append({'name': f'{key}-op-{op}-updated', 'mode': 'op', 'model': key, 'op': op, 'updated': True, 'budget': 300, 'cost': 10})
+            # ... and on two snapshots of ONE player (copy of a deepcopy: same id, same name) holding different values
+            out.append({'name': f'{key}-op-{op}-sameid', 'mode': 'op', 'model': key, 'op': op, 'updated': 'sameid', 'budget': 300, 'cost': 10})
         out.append({'name': f'{key}-ordinal', 'mode': 'ordinal', 'model': key, 'budget': 300, 'cost': 5})
         out.append({'name': f'{key}-foreign', 'mode': 'foreign', 'model': key, 'budget': 300, 'cost': 5})
         out.append({'name': f'{key}-sorted3', 'mode': 'sorted', 'n': 3, 'model': key, 'budget': 600, 'cost': 60})
@@ -70,6 +72,14 @@ def _spec(op, mu_a, sg_a, mu_b, sg_b):
         return z3.fpGEQ(oa, ob)
     e = z3.And(z3.fpEQ(mu_a, mu_b), z3.fpEQ(sg_a, sg_b))
     return e if op == 'eq' else z3.Not(e)
+
+
+def _pair(R, how):
+    import copy
+    if how == 'sameid':
+        a = R(30.0, 2.0, 'ann')
+        return a, copy.copy(copy.deepcopy(a))
+    return R(30.0, 2.0), R(10.0, 1.0)
 
 
 def _warm_up(a, b):
@@ -138,7 +148,7 @@ def run_job(spec, ctx):
 
         def run():
             if spec.get('updated'):
-                a, b = R(30.0, 2.0), R(10.0, 1.0)
+                a, b = _pair(R, spec.get('updated'))
                 _warm_up(a, b)
                 a.mu, a.sigma = fp.FSym(V['mu_a']), fp.FSym(V['sg_a'])
                 b.mu, b.sigma = fp.FSym(V['mu_b']), fp.FSym(V['sg_b'])
@@ -170,7 +180,7 @@ def run_job(spec, ctx):
             sample = {'class': R.__name__, 'operator': op, 'result_on_path': repr(out), 'path_condition': [str(c)[:200] for c in eng.pc],
                       'negated_obligation': str(neg)[:300]}
             if r == 'sat':
-                cand = {'mode': 'op', 'model': key, 'op': op, 'updated': bool(spec.get('updated')), 'vals': {n: fp.fp_value(m, n) for n in names}}
+                cand = {'mode': 'op', 'model': key, 'op': op, 'updated': spec.get('updated') or False, 'vals': {n: fp.fp_value(m, n) for n in names}}
                 ctx.ob(f'{R.__name__} {op}: result <=> ordinal comparison', 'sat', cand, sample=sample)
             else:
                 ctx.ob(f'{R.__name__} {op}: path => (result <=> spec)', r, sample=sample)
@@ -283,7 +293,7 @@ def replay(cand):
     if mode == 'op':
         v = cand['vals']
         if cand.get('updated'):
-            a, b = R(30.0, 2.0), R(10.0, 1.0)
+            a, b = _pair(R, cand.get('updated'))
             _warm_up(a, b)
             a.mu, a.sigma, b.mu, b.sigma = v['mu_a'], v['sg_a'], v['mu_b'], v['sg_b']
         else:
@@ -296,8 +306,8 @@ def replay(cand):
         oa, ob = v['mu_a'] - 3.0 * v['sg_a'], v['mu_b'] - 3.0 * v['sg_b']
         want = {'lt': oa < ob, 'le': oa <= ob, 'gt': oa > ob, 'ge': oa >= ob,
                 'eq': v['mu_a'] == v['mu_b'] and v['sg_a'] == v['sg_b'], 'ne': not (v['mu_a'] == v['mu_b'] and v['sg_a'] == v['sg_b'])}[op]
-        return {'violated': got is not want, 'key': f'{key}:op:{op}' + (':updated' if cand.get('updated') else ''),
-                'detail': ('[objects used, then updated in place] ' if cand.get('updated') else '') + f'C18 {R.__name__}({v["mu_a"]!r}, {v["sg_a"]!r}) {op} {R.__name__}({v["mu_b"]!r}, {v["sg_b"]!r}) = {got!r}, '
+        return {'violated': got is not want, 'key': f'{key}:op:{op}' + (f':{cand.get("updated")}' if cand.get('updated') else ''),
+                'detail': ('[two snapshots of one player (same id), used, then updated in place] ' if cand.get('updated') == 'sameid' else '[objects used, then updated in place] ' if cand.get('updated') else '') + f'C18 {R.__name__}({v["mu_a"]!r}, {v["sg_a"]!r}) {op} {R.__name__}({v["mu_b"]!r}, {v["sg_b"]!r}) = {got!r}, '
                           f'ordinals {oa!r} vs {ob!r} => expected {want!r}'}
     if mode == 'ordinal':
         v = cand['vals']
